@@ -48,6 +48,9 @@ class C08(Prop):
         if api == "read_block_f":
             c["j"] = rng.randrange(0, C)
             c["k"] = rng.randint(1, C - c["j"])
+            # the requested first-channel frequency need not be a channel centre: the nearest channel is taken and
+            # the block is labelled with THAT channel's centre
+            c["offgrid"] = rng.choice((0.0, 0.0, 0.3, -0.4, 0.45, -0.2))
         if api in ("read_dedisp", "dedisperse", "subband", "blk_dedisp"):
             # the block paths accept delays of either sign (ascending bands); the streamed ones refuse them
             c["dm"] = rng.choice((0.0, 0.0, 1.0, 3.0)) if (foff < 0 or api in ("read_dedisp", "blk_dedisp")) else 0.0
@@ -125,7 +128,7 @@ class C08(Prop):
                 b = fil.read_block(s, n)
                 res["out"] = dict(self._hdr(b.header), shape=list(b.data.shape), vals=[float(v) for v in b.data.T.ravel()])
             elif api == "read_block_f":
-                f = fil.header.fch1 + case["j"] * fil.header.foff
+                f = fil.header.fch1 + (case["j"] + case.get("offgrid", 0.0)) * fil.header.foff
                 b = fil.read_block(s, n, fch1=f, nchans=case["k"])
                 res["out"] = dict(self._hdr(b.header), shape=list(b.data.shape), vals=[float(v) for v in b.data.T.ravel()])
             elif api == "read_dedisp":
@@ -296,7 +299,7 @@ class C08(Prop):
             return [("FilReader_read_block", hin, {"p_data_size": n * C, "p_fch1": hin["fch1"], "p_nchans": C, "p_start": s},
                      out, common_f + ["nsamples"])]
         if api == "read_block_f":
-            f = hin["fch1"] + case["j"] * hin["foff"]
+            f = hin["fch1"] + (case["j"] + case.get("offgrid", 0.0)) * hin["foff"]
             return [("FilReader_read_block", hin, {"p_data_size": n * C, "p_fch1": f, "p_nchans": case["k"], "p_start": s},
                      out, common_f + ["nsamples"])]
         if api == "read_dedisp":
